@@ -661,6 +661,21 @@ Definition good_history (pub : store) (ops : list dop) : bool :=
   | _ => false
   end.
 
+(* several batches (a multi-step IXFR): every record operation is good with
+   respect to the version published at the start of its own batch *)
+Definition is_commit_op (o : dop) : bool :=
+  match o with DBatch | DFinish _ _ => true | _ => false end.
+
+Fixpoint good_multi (ops : list dop) (st : dstate) : bool :=
+  match ops with
+  | [] => true
+  | o :: rest =>
+      (if is_commit_op o then true else good_op o st) && good_multi rest (fst (d_step o st))
+  end.
+
+Definition good_history_multi (pub : store) (ops : list dop) : bool :=
+  pub_ok pub && good_multi ops (d_start pub) && existsb is_commit_op ops.
+
 (* the boolean form of "the reported diff applies" over the keys that occur *)
 Definition rrs_same (a b : option rrs) : bool :=
   match a, b with
@@ -683,7 +698,22 @@ Definition diff_applies_b (pub : store) (ops : list dop) : bool :=
 Definition c10_run (ms : list msg) : list upd * status := run None ms.
 Definition c10_apply (z0 : zone) (us : list upd) : outcome ustate := u_apply_all updater_checks_batch_soa us (u_start z0).
 Definition c10_transfers (z0 : zone) (uss : list (list upd)) : outcome (list zone) := u_transfers updater_checks_batch_soa uss z0.
-Definition c10_diff_good (pub : store) (ops : list dop) : bool := good_history pub ops.
+(* every diff reported along the run applies to the version published when its batch began *)
+Fixpoint applies_multi (ops : list dop) (st : dstate) : bool :=
+  match ops with
+  | [] => true
+  | o :: rest =>
+      let '(st', r) := d_step o st in
+      (match r with
+       | [Some (rem, add)] =>
+           forallb (fun k => rrs_same (applied_at k (ds_pub st) rem add) (s_get k (ds_work st')))
+                   (map fst (ds_pub st) ++ map fst (ds_work st') ++ map fst rem ++ map fst add)
+       | _ => true
+       end) && applies_multi rest st'
+  end.
+
+Definition c10_diff_good (pub : store) (ops : list dop) : bool := good_history_multi pub ops.
+Definition c10_diff_applies_all (pub : store) (ops : list dop) : bool := applies_multi ops (d_start pub).
 Definition c10_diff_applies (pub : store) (ops : list dop) : bool := diff_applies_b pub ops.
 Definition c10_client (q : N) (ms : list msg) : list bool * bool := client_stream (client_init q) ms.
 Definition c10_sender_axfr (v : N * list N) : option (list rr) := sender_axfr (zone_of v).
